@@ -2,10 +2,11 @@
 import json
 import os
 import random
+import re
 import subprocess
 import time
 
-from vlib import Check, Undecided, read_ndjson, main, SEED
+from vlib import Check, Undecided, read_ndjson, write_ndjson, main, SEED
 
 LISTS = ["ridx", "rl1", "rl2", "sidx", "ss", "hp"]
 FAULTS = ["ok", "refused", "timeout", "status", "empty", "oversize", "trunc", "inv", "invown"]
@@ -69,23 +70,81 @@ def trace_cfg(c, name, defects):
     return name
 
 
-def classify_failure(c, seg):
-    """Which known deviation (if any) explains a rejected segment: the segment is
-    re-validated against the model with defect flags switched on."""
-    for ds in (["svc_strict"], ["victim_dropped"], ["svc_strict", "victim_dropped"]):
-        cfg = trace_cfg(c, "TraceFilterRefresh_%s.cfg" % "_".join(ds), ds)
-        path = os.path.join(c.scratch, "reval.ndjson")
-        from vlib import write_ndjson
-        write_ndjson(path, seg)
-        # only the model-conformance part: the Obs* property clauses would fire again
-        txt = open(os.path.join(c.specdir, cfg)).read()
-        txt = txt.replace(txt[txt.index("INVARIANTS"):txt.index("POSTCONDITION")], "INVARIANTS ObsMatchesModel\n")
-        open(os.path.join(c.specdir, cfg), "w").write(txt)
-        r = c.tlc_trace("TraceFilterRefresh", cfg, path)
-        c.cov["tlc_runs"].pop()
+def segments(events):
+    segs, cur = [], []
+    for e in events:
+        if e["ev"] == "Reset" and cur:
+            segs.append(cur)
+            cur = []
+        cur.append(e)
+    if cur:
+        segs.append(cur)
+    return segs
+
+
+def validate(c, events, cfg="TraceFilterRefresh.cfg", count=True):
+    """One TLC run over the concatenated segments.  Returns (nonconf, stuck):
+    nonconf = {(segment number, index in segment): [failed clauses, model served, model disk]},
+    stuck = [(segment number, index in segment)].  A segment at which the trace
+    spec gets stuck is removed and the rest is validated again."""
+    segs = list(enumerate(segments(events)))
+    nonconf, stuck = {}, []
+    total = len(segs)
+    while segs:
+        flat, where = [], []
+        for sn, sg in segs:
+            for i, e in enumerate(sg):
+                flat.append(e)
+                where.append((sn, i))
+        path = os.path.join(c.scratch, "trace_in.ndjson")
+        write_ndjson(path, flat)
+        r = c.tlc_trace("TraceFilterRefresh", cfg, path, timeout=1500)
+        if not count:
+            c.cov["tlc_runs"].pop()
+        if r.violated:
+            raise Undecided("trace run reported %s:\n%s" % (r.violated, r.out[-3000:]))
+        for t in r.tuples("NONCONF"):
+            ln = int(t[0]) - 1
+            nonconf[where[ln]] = [re.findall(r'"(\w+)"', t[1]), t[2], t[3]]
         if r.ok:
-            return "+".join(ds)
-    return None
+            break
+        st = r.tuples("STUCK")
+        if not st:
+            raise Undecided("trace rejected without STUCK:\n%s" % r.out[-3000:])
+        bad = int(st[-1][0]) - 1
+        if bad < 0 or bad >= len(flat):
+            raise Undecided("bad stuck index %d of %d" % (bad, len(flat)))
+        sn, i = where[bad]
+        stuck.append((sn, i))
+        segs = [x for x in segs if x[0] != sn]
+        if len(stuck) > 8:
+            break
+    if count:
+        failed = set(sn for sn, _ in nonconf) | set(sn for sn, _ in stuck)
+        c.cov["traces_validated_against_impl"] += total - len(failed)
+    return nonconf, stuck
+
+
+DEFECT_SETS = (["svc_strict"], ["victim_dropped"], ["svc_strict", "victim_dropped"])
+
+
+def explain(c, events, nonconf):
+    """For every non-conforming event: the smallest set of known deviations of
+    the pinned tree (defect flags of the model) under which the model does
+    explain the observation."""
+    res = {}
+    runs = {}
+    for ds in DEFECT_SETS:
+        cfg = trace_cfg(c, "TraceFilterRefresh_%s.cfg" % "_".join(ds), ds)
+        runs["+".join(ds)], _ = validate(c, events, cfg, count=False)
+    for key in nonconf:
+        res[key] = "none"
+        for ds in DEFECT_SETS:
+            nc = runs["+".join(ds)].get(key)
+            if nc is None or "MatchesModel" not in nc[0]:
+                res[key] = "+".join(ds)
+                break
+    return res
 
 
 def strip_disturbed(events, c):
@@ -125,6 +184,15 @@ def run(c: Check):
     # 2. behaviours from the spec
     behs = c.tlc_sim("FilterRefresh", "FilterRefresh_sim.cfg", num=250 if th else 25, depth=70)
     steps = behaviours_from_tlc(behs, rng)
+    uniq = {}
+    for b in steps:
+        if any(st["a"] == "Round" for st in b["steps"]):
+            uniq.setdefault(json.dumps(b, sort_keys=True), b)
+    steps = sorted(uniq.values(), key=lambda b: json.dumps(b, sort_keys=True))
+    rng.shuffle(steps)
+    steps = steps[:600 if th else 40]
+    if len(steps) < 20:
+        raise Undecided("only %d behaviours from the simulation" % len(steps))
     inp = os.path.join(c.scratch, "c13_behs.json")
     json.dump(steps, open(inp, "w"))
     # 3. the real code, 4. trace validation
@@ -143,7 +211,8 @@ def run(c: Check):
     missing = [f for f in FAULTS if f not in produced]
     if missing:
         raise Undecided("fault kinds never produced for real: %s (vacuous)" % missing)
-    fails = c.validate_segments("TraceFilterRefresh", "TraceFilterRefresh.cfg", ev, max_fail=12)
+    nonconf, stuck = validate(c, ev)
+    why = explain(c, ev, nonconf) if nonconf else {}
     seg = []
     for e in ev + [{"ev": "Reset"}]:
         if e["ev"] == "Reset":
@@ -166,8 +235,11 @@ def run(c: Check):
     if rounds:
         e = rounds[len(rounds) // 2]
         c.sample({"round": {k: e[k] for k in ("faults", "real", "remote", "ms")}})
-    for sg, idx, reason in fails:
-        report(c, sg, idx, reason)
+    segs = segments(ev)
+    for (sn, i), (clauses, ms, md) in sorted(nonconf.items()):
+        report(c, segs[sn], i, clauses, why.get((sn, i), "none"), ms, md)
+    for sn, i in stuck:
+        report(c, segs[sn], i, ["stuck"], "none", "", "")
     crash_points(c, th)
     c.assumptions += [
         "every version of every list blocks two probe hosts of its own (first and last line of its text); the served "
@@ -182,24 +254,21 @@ def run(c: Check):
     ]
 
 
-def report(c, sg, idx, reason):
+def report(c, sg, idx, clauses, known, ms, md):
     e = sg[idx]
     rnd = next((x for x in reversed(sg[:idx + 1]) if x["ev"] == "Round"), None)
     hist = [(x["ev"], x.get("faults") or x.get("up")) for x in sg[1:idx + 1] if x["ev"] in ("Round", "Crash", "Restart")]
-    inv = reason.split()[1] if reason.startswith("invariant") else "stuck"
-    known = classify_failure(c, sg[:idx + 1]) if inv in ("ObsMatchesModel", "stuck", "ObsFaultyKeepsPrevious",
-                                                          "ObsValidIndexEntriesApplied", "ObsRestartUsable") else None
-    sig = {"kind": inv, "explained_by": known or "none"}
-    if rnd:
-        sig["faulty"] = sorted(set(f for f in rnd["faults"].values() if f != "ok"))
+    prop = [x for x in clauses if x != "MatchesModel"]
+    sig = {"kind": prop[0] if prop else clauses[0], "explained_by": known, "ev": e["ev"]}
     c.violation(sig,
-                "C13 %s at event %s of behaviour %s; rounds so far %s; last round: faults=%s produced=%s variants=%s; "
-                "observed served=%s disk=%s applied=%s ok=%s odd=%s/%s; the model with defect flag(s) {%s} explains the trace"
-                % (reason, e["ev"], e.get("beh"), json.dumps(hist[-4:]), json.dumps(rnd and rnd["faults"]),
-                   json.dumps(rnd and rnd["real"]), json.dumps(rnd and rnd["variants"]), json.dumps(e.get("served")),
-                   json.dumps(e.get("disk")), e.get("applied"), e.get("ok"), e.get("odd_served"), e.get("odd_disk"),
-                   known or "-"),
-                {"segment": sg[:idx + 1], "offending_index": idx, "reason": reason})
+                "C13 %s: %s not satisfied by event %d (%s) of behaviour %s; steps so far %s; last round: faults=%s "
+                "produced=%s variants=%s; observed served=%s disk=%s applied=%s ok=%s odd=%s/%s; model expected "
+                "served=%s disk=%s; deviation of the pinned tree that explains the observation: %s"
+                % ("model mismatch" if not prop else "property clause", "+".join(clauses), idx, e["ev"], e.get("beh"),
+                   json.dumps(hist[-4:]), json.dumps(rnd and rnd["faults"]), json.dumps(rnd and rnd["real"]),
+                   json.dumps(rnd and rnd["variants"]), json.dumps(e.get("served")), json.dumps(e.get("disk")),
+                   e.get("applied"), e.get("ok", True), e.get("odd_served"), e.get("odd_disk"), ms, md, known),
+                {"segment": sg[:idx + 1], "offending_index": idx, "clauses": clauses, "explained_by": known})
 
 
 def crash_points(c, th):
